@@ -396,6 +396,14 @@ pub fn run(s: &ScnT, ctx: &mut RunCtx, prefix: &'static str) -> RunOutput {
             }
         }
         tower_resilience_core::verif::set_async_yield_hook(None);
+        // what is logged while the runtime is torn down (tasks the library spawned and that never
+        // ran are dropped in an order that is not ours) is not part of the execution
+        let end = world::now_us();
+        world::log(world::Ev::SimEnd);
+        world::with(|w| {
+            w.ended = true;
+            w.end_us = end;
+        });
         drop(_g);
         drop(rt);
         world::with(|w| w.ended = false);
